@@ -56,13 +56,14 @@ func vrText(id uint64, n uint64) string {
 		return s
 	}
 	s := fmt.Sprintf("s%d", id)
+	if n > 64 {
+		n = 64 // lengths are not observable beyond emptiness in the abstract domain
+	}
 	for uint64(len(s)) < n {
 		s += "_"
 	}
-	if n > 0 && uint64(len(s)) > n {
-		// keep ids distinct where possible even when the model asks for a short length
-		s = s[:n]
-	}
+	// never truncated: distinct ids must stay distinct texts (only emptiness and equality are observable
+	// in the abstract string domain; a model length shorter than the synthesized text is not reproduced)
 	vrTexts[id] = s
 	return s
 }
